@@ -188,6 +188,13 @@ func (r *Run) violation(key string, replay map[string]any) {
 	}
 }
 
+// tooManyViolations lets long replays stop early once the verdict is settled.
+func (r *Run) tooManyViolations() bool {
+	r.mu.Lock()
+	defer r.mu.Unlock()
+	return len(r.violations) >= 20
+}
+
 func jsonStr(v any) string {
 	b, _ := json.Marshal(v)
 	if len(b) > 600 {
